@@ -30,8 +30,11 @@ def _factory(spec):
 
 def _replay(spec, hist):
     sim = _factory(spec)(spec["config"])
+    # prefixes were checked when first explored: a sim may offer a cheaper,
+    # oracle-free way to re-apply them
+    step = getattr(sim, "apply_quiet", sim.apply)
     for op in hist:
-        sim.apply(op)
+        step(op)
     return sim
 
 
